@@ -5,6 +5,7 @@ An *entry spec* is the AST of one \\index argument (JSON-able):
 
     {'lv': [[sort|None, src, text, mark|None], ...],      1-3 levels
      'fmt': None | [name] | [name, arg]}                  |textbf  |see{beta}  |seealso{alpha}
+                                                          |(  |)  |(textbf  |)textbf   (name starts with ( or ) )
 
     sort  -- explicit sort key of the level (the part before @) or None
     src   -- LaTeX source of the displayed key, *unquoted* (the printer quotes ! @ | ")
@@ -90,11 +91,19 @@ def idents(spec):
     return [((text if sort is None else sort), text, mark) for sort, src, text, mark in spec['lv']]
 
 
+def is_range(spec):
+    fmt = spec.get('fmt')
+    return bool(fmt) and fmt[0][:1] in ('(', ')')
+
+
 def page_of(spec, occ):
+    """A range opener / closer is an ordinary reference of its line (what it shows besides its ordinal is not
+    judged); the encapsulator after the range character (|(textbf) formats the reference like |textbf."""
     fmt = spec.get('fmt')
     if fmt and fmt[0] in ('see', 'seealso'):
         return [occ, fmt[0], fmt[0], fmt[1]]
-    return [occ, 'normal', fmt[0] if fmt else None, None]
+    name = fmt[0].lstrip('()') if fmt else None
+    return [occ, 'normal', name or None, None]
 
 
 def _number(children):
@@ -177,6 +186,40 @@ def flat_model(specs, ck):
             path.append(node)
         path[-1][1].append(page_of(it.spec, it.occ))
         prev = it
+    return _number(top)
+
+
+# ---------------------------------------------------------------------------------- CATCODE_SPLIT builder
+def letter_sig(spec, letters):
+    """Per level: the makeindex specials that remain in the displayed key (they were quoted) and that were
+    tokenised as letters where the entry was written (e.g. inside a macro defined under \\makeatletter)."""
+    return [''.join(sorted(set(ch for ch in lv[1] if ch in SPECIALS and ch in letters))) for lv in spec['lv']]
+
+
+def flat_catcode_model(specs, ck, sigs):
+    """Total, stable sort by level-wise (ck(sort), ck(text), source); a line is shared only by *adjacent* entries
+    whose displayed keys agree character for character *and category for category* (sigs[i] = letter_sig of the
+    i-th entry)."""
+    def sortkey(i):
+        return [(ck(sk), ck(text), lv[1]) for (sk, text, mark), lv in zip(idents(specs[i]), specs[i]['lv'])]
+    order = sorted(range(len(specs)), key=sortkey)
+    top, path, prev = [], [], None
+    for i in order:
+        ids = idents(specs[i])
+        mine = [(a[0], lv[1], g) for a, lv, g in zip(ids, specs[i]['lv'], sigs[i])]
+        common = 0
+        if prev is not None:
+            for a, b in zip(prev, mine):
+                if a != b:
+                    break
+                common += 1
+        del path[common:]
+        for ident in ids[common:]:
+            node = [ident, [], []]
+            (path[-1][2] if path else top).append(node)
+            path.append(node)
+        path[-1][1].append(page_of(specs[i], i))
+        prev = mine
     return _number(top)
 
 
@@ -270,6 +313,14 @@ def _selftest():
     assert expected_groups(['1', 'a', 'A', 'b']) == [('Symbols', 'Symbols', [0]), ('A', 'A', [1, 2]), ('B', 'B', [3])]
     assert check_columns([[0, 1], [2], []], [0, 1, 2], 3) == ''
     assert check_columns([[], [0]], [0], 2) and check_columns([[0]], [0], 2) and check_columns([[1], [0]], [0, 1], 2)
+    r1, r2 = E((None, 'alpha', 'alpha', None), fmt=['(']), E((None, 'alpha', 'alpha', None), fmt=[')textbf'])
+    assert spell(r1) == 'alpha|(' and spell(r2) == 'alpha|)textbf' and is_range(r1) and not is_range(see)
+    assert tree_model([r1, a, r2], lower)[0][1] == [[0, 'normal', None, '1'], [1, 'normal', None, '2'],
+                                                    [2, 'normal', 'textbf', '3']]
+    assert letter_sig(q, '@') == [''] and letter_sig(q, '!@') == ['!']
+    fc = flat_catcode_model([q, q, q], lower, [[''], ['!'], ['']])
+    assert [len(n[1]) for n in fc] == [1, 1, 1]
+    assert canon(flat_catcode_model([q, asub, q], lower, [[''], ['', ''], ['']]), lower) == canon(tree_model([q, asub, q], lower), lower)
     if have_uca():
         k = uca()
         assert sorted(['Alpha', 'zeta', 'école', 'alpha', 'echo'], key=k) == ['alpha', 'Alpha', 'echo', 'école', 'zeta']
